@@ -69,11 +69,22 @@ func completionObserved(call *env.Call, supplied []string) string {
 	return fmt.Sprintf("no 'record found and Done()=true' observation for any supplied id %q in this request's storage log", supplied)
 }
 
+// undeliverableBindings: values of a stored request's binding through which the callback cannot deliver a reply.
+var undeliverableBindings = []string{spsim.BindArtifact, "urn:oasis:names:tc:SAML:2.0:bindings:HTTP-POST-SimpleSign", "urn:oasis:names:tc:SAML:2.0:bindings:SOAP", "", "HTTP-POST", " " + spsim.BindPost}
+
 func c01Sequential(r *core.Run, idx int, rng *rand.Rand) {
 	const wl = "callback_states"
 	canary := fmt.Sprintf("MK%dx", idx)
 	sc := randScenario(rng, canary, rng.Intn(2) == 0)
 	state := []string{"absent", "pending", "done"}[idx%3]
+	// stored requests whose binding the callback cannot deliver through (idx%16 == 9, below) are completed sessions
+	// half of the time, and then meet the failures of signing more often than the others
+	undeliverable := idx%16 == 9
+	lateSel := (idx / 3) % 9
+	if undeliverable && (idx/16)%2 == 0 {
+		state = "done"
+		lateSel = []int{4, 6, 3, 0}[(idx/32)%4]
+	}
 	late := ""
 	switch state {
 	case "absent":
@@ -81,7 +92,7 @@ func c01Sequential(r *core.Run, idx int, rng *rand.Rand) {
 		sc.Done = false
 	case "done":
 		// late failures after the gate
-		switch (idx / 3) % 9 {
+		switch lateSel {
 		case 1:
 			late = "user_unknown"
 		case 2:
@@ -110,10 +121,10 @@ func c01Sequential(r *core.Run, idx int, rng *rand.Rand) {
 		sc.U.Custom = append(sc.U.Custom, sim.Custom{Name: "groups", Format: basicFormat, Values: vals})
 		sc.S.Binding = spsim.BindRedirect
 	}
-	if idx%16 == 9 {
+	if undeliverable {
 		// a stored request whose binding is none the callback can deliver through (written by another version, by hand,
 		// by an SSO endpoint of another deployment): whatever is answered, a non-Success reply carries no user data
-		sc.S.Binding = []string{spsim.BindArtifact, "urn:oasis:names:tc:SAML:2.0:bindings:HTTP-POST-SimpleSign", "urn:oasis:names:tc:SAML:2.0:bindings:SOAP", "", "HTTP-POST", " " + spsim.BindPost}[rng.Intn(6)]
+		sc.S.Binding = undeliverableBindings[rng.Intn(len(undeliverableBindings))]
 		if rng.Intn(3) == 0 {
 			sc.S.ACS = ""
 		}
@@ -201,6 +212,10 @@ func c01Sequential(r *core.Run, idx int, rng *rand.Rand) {
 	// id placement
 	id := sc.S.ID
 	placement := []string{"query", "body", "both_same", "query_other_body_own", "query_own_body_other", "duplicate_query", "empty", "blank", "overlong", "none", "case_changed", "padded", "percent_alias_of_other", "escaped_twice", "percent_alias_of_other_body"}[rng.Intn(15)]
+	if undeliverable && (idx/16)%2 == 0 {
+		placement = []string{"query", "body", "both_same"}[rng.Intn(3)]
+		r.Count("completed_sessions_whose_stored_binding_cannot_be_delivered_through", 1)
+	}
 	method := []string{"GET", "GET", "POST", "POST", "HEAD", "PUT"}[rng.Intn(6)]
 	var q, body string
 	supplied := []string{}
